@@ -172,6 +172,11 @@ func c10Run(c *core.Ctx) *core.Result {
 				if len(userInc) > 0 {
 					r.Count("follow_paths_next_to_nonempty_include_list", 1)
 				}
+			} else if e == nil && tg == nil {
+				// a follow path reaches the root: everything is needed, the
+				// caller's own include list no longer restricts anything
+				inc = nil
+				r.Count("follow_paths_reaching_the_root", 1)
 			} else {
 				follow = nil
 			}
